@@ -26,16 +26,16 @@ import (
 )
 
 type bindBad struct {
-	Kind string `json:"kind"`
-	Type string `json:"type"`
-	Doc  string `json:"doc"`
-	Text string `json:"text"`
-	Old  string `json:"old"`
-	Opts string `json:"opts"`
-	Want string `json:"want"`
-	Got  string `json:"got"`
+	Kind string          `json:"kind"`
+	Type string          `json:"type"`
+	Doc  string          `json:"doc"`
+	Text string          `json:"text"`
+	Old  string          `json:"old"`
+	Opts string          `json:"opts"`
+	Want string          `json:"want"`
+	Got  string          `json:"got"`
 	Feat map[string]bool `json:"feat"`
-	Sig  string `json:"sig"`
+	Sig  string          `json:"sig"`
 }
 
 type bindRes struct {
@@ -53,7 +53,7 @@ type bindRes struct {
 var apiCache = map[string]sonic.API{}
 
 func bindAPI(o map[string]interface{}) sonic.API {
-	key := fmt.Sprint(o["num"], o["cs"], o["duf"], o["vs"])
+	key := fmt.Sprint(o["num"], o["cs"], o["duf"], o["vs"], o["ue"])
 	if a, ok := apiCache[key]; ok {
 		return a
 	}
@@ -69,6 +69,7 @@ func bindAPI(o map[string]interface{}) sonic.API {
 	}
 	c.CaseSensitive = o["cs"].(bool)
 	c.DisallowUnknownFields = o["duf"].(bool)
+	c.UseUnicodeErrors, _ = o["ue"].(bool)
 	a := c.Froze()
 	apiCache[key] = a
 	return a
@@ -273,6 +274,9 @@ func optsSig(o map[string]interface{}) string {
 	if o["duf"].(bool) {
 		s += "+duf"
 	}
+	if o["ue"] == true {
+		s += "+ue"
+	}
 	return s
 }
 
@@ -314,7 +318,7 @@ func bindHandle(in []byte) []byte {
 		// the oracle
 		ps := oldV()
 		var errS error
-		haveStd := !o["cs"].(bool)
+		haveStd := !o["cs"].(bool) && o["ue"] != true
 		if haveStd {
 			rd := strings.NewReader(text)
 			dec := json.NewDecoder(rd)
